@@ -52,7 +52,9 @@ def require_actions(r, names):
 
 _CLASSES = None
 
-STATUS = {'HTTPError': 422, 'HTTPStatus': 203, 'HTTPNotFound': 404, 'AppX': 404, 'StSub': 207}
+STATUS = {'HTTPError': 422, 'HTTPStatus': 203, 'HTTPNotFound': 404, 'AppX': 404, 'StSub': 207, 'HTTPRouteNotFound': 404}
+OWN_VARY = ('HTTPNotFound', 'AppX', 'StSub')     # classes whose instances carry a Vary header of their own
+TAG_TYPE = 'application/x-verif-tag'
 SET_STATUS_BASE = 460          # Pipeline!SetStatus(h) = 460 + h
 HANDLER_ERR_STATUS = 409       # Pipeline!HandlerErrStatus
 HANDLER_ST_STATUS = 203        # Pipeline!HandlerStStatus
@@ -84,7 +86,7 @@ def classes():
 
         _CLASSES = {'Exception': Exception, 'HTTPError': falcon.HTTPError, 'HTTPStatus': falcon.HTTPStatus,
                     'HTTPNotFound': falcon.HTTPNotFound, 'AppA': AppA, 'AppB': AppB, 'AppC': AppC, 'AppD': AppD,
-                    'AppX': AppX, 'StSub': StSub}
+                    'AppX': AppX, 'StSub': StSub, 'HTTPRouteNotFound': falcon.HTTPRouteNotFound}
     return _CLASSES
 
 
@@ -103,7 +105,7 @@ def class_table():
                 raise RuntimeError('class %r in the linearisation of %s is unknown to the class table' % (b, name))
             lin.append(names[b])
         mro[name] = lin
-    return {'mro': mro, 'status': {n: STATUS.get(n, 0) for n in cl}}
+    return {'mro': mro, 'status': {n: STATUS.get(n, 0) for n in cl}, 'vary': {n: n in OWN_VARY for n in cl}}
 
 
 # adversarial strings for titles / descriptions / link targets (C04 faithfulness)
@@ -135,15 +137,25 @@ def make_exc(name, idx, fields=None, status=None):
     cl = classes()
     f = fields or Fields()
     c = cl[name]
+    own = own_headers(name, idx)
     if issubclass(c, falcon.HTTPError):
-        kw = dict(title='E%d|%s' % (idx, f.title_tail), description=f.description, headers={'x-e%d' % idx: 'v%d' % idx},
+        kw = dict(title='E%d|%s' % (idx, f.title_tail), description=f.description, headers=own,
                   href=f.href, href_text=f.href_text, code=f.code)
         if issubclass(c, falcon.HTTPNotFound):
             return c(**kw)
         return c(status or STATUS['HTTPError'], **kw)
     if issubclass(c, falcon.HTTPStatus):
-        return c(status or STATUS[name], {'x-e%d' % idx: 'v%d' % idx}, 's%d|%s' % (idx, f.title_tail))
+        return c(status or STATUS[name], own, 's%d|%s' % (idx, f.title_tail))
     return c('boom %d' % idx)
+
+
+def own_headers(name, idx):
+    """Headers an HTTP error / status instance raised by call idx carries: a marker, a list-valued one, and
+    (classes in OWN_VARY) a Vary header of its own.  Alternately a dict or a list of pairs."""
+    h = {'x-e%d' % idx: 'v%d' % idx, 'x-l%d' % idx: 'a%d, b%d' % (idx, idx)}
+    if name in OWN_VARY:
+        h['Vary'] = 'e%d' % idx
+    return h if idx % 2 else list(h.items())
 
 
 def table_name(ex):
@@ -201,6 +213,7 @@ class Recorder:
     def mark(self, resp, idx):
         """Put the marker of call `idx` on the response through one of text / data / media."""
         attr = 2 if self.render_cls else (idx + self.attr_seed) % 3
+        resp.append_header('Vary', 'm%d' % idx)
         if attr == 0:
             resp.text = 'm%d' % idx
         elif attr == 1:
@@ -342,7 +355,14 @@ def _handler(rec, h, beh, asgi):
         r['cls'] = table_name(ex)
         if beh == 'set':
             resp.status = SET_STATUS_BASE + h
-            resp.text = 'h%d' % idx
+            attr = (idx + rec.attr_seed + h) % 3
+            if attr == 0:
+                resp.text = 'h%d' % idx
+            elif attr == 1:
+                resp.data = b'h%d' % idx
+            else:
+                resp.content_type = 'application/json'
+                resp.media = {'h': idx}
         elif beh == 'setbad':
             resp.status = SET_STATUS_BASE + h
             resp.content_type = 'application/json'
@@ -393,31 +413,52 @@ def hook_pattern(nb, na, variant):
     return pats[variant % len(pats)]
 
 
-def run_request(cfg, plan, *, asgi=False, render_cls=None, lazy=None, accept=None, variant=0, fields_rng=None,
-                xml_safe=False, bad_cls=None):
-    """cfg: dict(shape=[[..]..], indep, target, nb, na, reg=[{cls, beh}..] (custom registrations only)).
-    Returns (rec, result, app)."""
-    import falcon
-    import falcon.asgi
-    import falcon.media
-    rec = Recorder(plan, render_cls, lazy, fields_rng, attr_seed=variant, xml_safe=xml_safe)
-    if bad_cls:
-        rec.bad_cls = bad_cls
-    twin = bool(variant & 1)
-    comps = [_component(rec, j + 1, set(s), asgi, twin) for j, s in enumerate(cfg['shape'])]
-    App = falcon.asgi.App if asgi else falcon.App
-    if variant & 2:
-        app = App(independent_middleware=cfg['indep'])
-        for c in comps:
-            app.add_middleware(c)
-    else:
-        app = App(middleware=comps, independent_middleware=cfg['indep'])
-    app.resp_options.media_handlers[falcon.MEDIA_JSON] = falcon.media.JSONHandler(dumps=rec.dumps)
-    cl = classes()
+class _Cur:
+    """What the generated components hold: always the recorder of the request being served."""
 
-    def routes():
+    def __init__(self):
+        object.__setattr__(self, 'cur', None)
+
+    def __getattr__(self, name):
+        return getattr(object.__getattribute__(self, 'cur'), name)
+
+
+class Session:
+    """One real application object serving several requests; error handlers may be registered between them.
+    cfg: dict(shape=[[..]..], indep, target, nb, na).  Registration number h of a handler is 4 + its position
+    in the session's registration history (1..3 are the framework's defaults)."""
+
+    def __init__(self, cfg, *, asgi=False, variant=0):
+        import falcon
+        import falcon.asgi
+        import falcon.media
+        self.cfg, self.asgi, self.variant = cfg, asgi, variant
+        self.rec = rec = _Cur()
+        self.nregs = 0
+        twin = bool(variant & 1)
+        comps = [_component(rec, j + 1, set(s), asgi, twin) for j, s in enumerate(cfg['shape'])]
+        App = falcon.asgi.App if asgi else falcon.App
+        if variant & 2:
+            app = App(independent_middleware=cfg['indep'])
+            for c in comps:
+                app.add_middleware(c)
+        else:
+            app = App(middleware=comps, independent_middleware=cfg['indep'])
+        app.resp_options.media_handlers[falcon.MEDIA_JSON] = falcon.media.JSONHandler(
+            dumps=lambda o: rec.dumps(o) if object.__getattribute__(rec, 'cur') else json.dumps(o, ensure_ascii=False))
+        app.resp_options.media_handlers[TAG_TYPE] = TagHandler(asgi)
+        self.app = app
+        self.routed = False
+        if variant & 4:
+            self._routes()
+
+    def _routes(self):
+        if self.routed:
+            return
+        self.routed = True
+        cfg, rec, asgi, app = self.cfg, self.rec, self.asgi, self.app
         if cfg['target'] == 'routed':
-            app.add_route('/t', _resource(rec, cfg['nb'], cfg['na'], asgi, hook_pattern(cfg['nb'], cfg['na'], variant >> 3)))
+            app.add_route('/t', _resource(rec, cfg['nb'], cfg['na'], asgi, hook_pattern(cfg['nb'], cfg['na'], self.variant >> 3)))
         elif cfg['target'] == 'sink':
             if asgi:
                 async def sink(req, resp, **kw):
@@ -429,18 +470,35 @@ def run_request(cfg, plan, *, asgi=False, render_cls=None, lazy=None, accept=Non
         else:
             app.add_route('/other', _resource(rec, 0, 0, asgi, ''))
 
-    if variant & 4:
-        routes()
-    for k, r in enumerate(cfg['reg']):
-        app.add_error_handler(cl[r['cls']], _handler(rec, 4 + k, r['beh'], asgi))
-    if not variant & 4:
-        routes()
-    req = Req('GET', '/t', headers=[('Accept', accept)] if accept is not None else [])
-    if asgi:
-        res = run_async(asgi_call_async(app, req))
-    else:
-        res = wsgi_call(app, req)
-    return rec, res, app
+    def add_handlers(self, regs):
+        cl = classes()
+        for r in regs:
+            self.nregs += 1
+            self.app.add_error_handler(cl[r['cls']], _handler(self.rec, 3 + self.nregs, r['beh'], self.asgi))
+        return self
+
+    def request(self, plan, *, render_cls=None, lazy=None, accept=None, fields_rng=None, xml_safe=False, bad_cls=None):
+        self._routes()
+        rec = Recorder(plan, render_cls, lazy, fields_rng, attr_seed=self.variant, xml_safe=xml_safe)
+        if bad_cls:
+            rec.bad_cls = bad_cls
+        object.__setattr__(self.rec, 'cur', rec)
+        req = Req('GET', '/t', headers=[('Accept', accept)] if accept is not None else [])
+        if self.asgi:
+            res = run_async(asgi_call_async(self.app, req))
+        else:
+            res = wsgi_call(self.app, req)
+        return rec, res
+
+
+def run_request(cfg, plan, *, asgi=False, render_cls=None, lazy=None, accept=None, variant=0, fields_rng=None,
+                xml_safe=False, bad_cls=None):
+    """One request on a fresh application.  cfg as for Session plus reg=[{cls, beh}..] (custom registrations).
+    Returns (rec, result, app)."""
+    s = Session(cfg, asgi=asgi, variant=variant).add_handlers(cfg['reg'])
+    rec, res = s.request(plan, render_cls=render_cls, lazy=lazy, accept=accept, fields_rng=fields_rng, xml_safe=xml_safe,
+                         bad_cls=bad_cls)
+    return rec, res, s.app
 
 
 # ------------------------------------------------------------------------------------------------
@@ -450,6 +508,8 @@ def run_request(cfg, plan, *, asgi=False, render_cls=None, lazy=None, accept=Non
 def decode_doc(body, ctype):
     """Error document -> dict, by the representation's own trusted parser.  None if not a document."""
     ct = (ctype or '').split(';')[0].strip().lower()
+    if ct == TAG_TYPE and body.startswith(b'TAG'):
+        body, ct = body[3:], 'application/json'
     if ct.endswith('json'):
         try:
             d = json.loads(body.decode('utf-8'))
@@ -478,11 +538,16 @@ def decode_doc(body, ctype):
 def project(res):
     """Server-visible response -> the abstract response of Pipeline.tla."""
     out = {'escaped': res.exc is not None, 'status': res.status or 0, 'body': {'k': 'none', 'id': 0}, 'hdrs': [],
-           'vary': False, 'doc': None, 'ctype': res.header('content-type')}
+           'vary': [], 'doc': None, 'ctype': res.header('content-type')}
     if res.exc is not None:
         return out
-    out['hdrs'] = sorted(int(k[3:]) for k, _ in res.headers if re.fullmatch(r'x-e\d+', k))
-    out['vary'] = any('accept' in [t.strip().lower() for t in v.split(',')] for v in res.header_all('vary'))
+    hm = res.header_map()
+    # an exception's own headers are on the response iff every one of them is there with its value
+    out['hdrs'] = sorted(int(k[3:]) for k, v in res.headers if re.fullmatch(r'x-e\d+', k) and v == 'v' + k[3:]
+                         and hm.get('x-l' + k[3:]) == ['a%s, b%s' % (k[3:], k[3:])])
+    toks = [t.strip().lower() for v in res.header_all('vary') for t in v.split(',') if t.strip()]
+    out['vary'] = sorted(set(0 if t == 'accept' else int(t[1:]) if t[0] == 'm' else -int(t[1:]) for t in toks
+                             if t == 'accept' or re.fullmatch(r'[me]\d+', t)))
     b = res.body
     m = re.fullmatch(rb'([mhs])(\d+)(\|.*)?', b, re.S)
     if not b:
@@ -493,6 +558,8 @@ def project(res):
         d = decode_doc(b, out['ctype'])
         if d is not None and set(d) == {'m'} and isinstance(d['m'], int):
             out['body'] = {'k': 'mark', 'id': d['m']}
+        elif d is not None and set(d) == {'h'} and isinstance(d['h'], int):
+            out['body'] = {'k': 'hset', 'id': d['h']}
         elif d is not None and isinstance(d.get('title'), str):
             out['doc'] = d
             t = re.match(r'E(\d+)\|', d['title'])
@@ -531,71 +598,101 @@ def xml_expressible(s):
 # lifespan
 # ------------------------------------------------------------------------------------------------
 
-def run_lifespan(shapes, plan, *, send_shutdown=True, with_request_method=0):
-    """shapes: list of subsets of {'startup','shutdown'}; plan: list of 'ok'/'raise' for successive
-    handler calls.  Returns (calls, events, exc)."""
+def run_lifespan(hs0, cycles, plan, *, with_request_method=0, add_via_list=False):
+    """ONE real falcon.asgi.App taken through several lifespan cycles.
+    hs0: lifespan methods (subsets of {'startup','shutdown'}) of the initial components;
+    cycles: [{'adds': [shape..] components added before this cycle, 'shutdown': the server sends lifespan.shutdown}];
+    plan: 'ok'/'raise' for successive handler calls over the whole history.
+    Returns one (calls, events, exc) triple per cycle."""
     import falcon.asgi
-    calls, k = [], [0]
+    cur = {'calls': None}
+    k = [0]
+    count = [0]
 
     def act(site, j):
-        calls.append({'site': site, 'c': j, 'act': 'ok'})
+        cur['calls'].append({'site': site, 'c': j, 'act': 'ok'})
         a = plan[k[0]] if k[0] < len(plan) else 'ok'
         k[0] += 1
         if a == 'raise':
-            calls[-1]['act'] = 'raise'
+            cur['calls'][-1]['act'] = 'raise'
             raise RuntimeError('%s %d fails' % (site, j))
 
-    comps = []
-    for j, s in enumerate(shapes):
+    def component(s):
+        count[0] += 1
+        j = count[0]
         d = {}
         if 'startup' in s:
-            async def process_startup(self, scope, event, j=j + 1):
+            async def process_startup(self, scope, event):
                 act('startup', j)
             d['process_startup'] = process_startup
         if 'shutdown' in s:
-            async def process_shutdown(self, scope, event, j=j + 1):
+            async def process_shutdown(self, scope, event):
                 act('shutdown', j)
             d['process_shutdown'] = process_shutdown
-        if (with_request_method >> j) & 1 or not d:
+        if (with_request_method >> (j - 1)) & 1 or not d:
             async def process_request(self, req, resp):
                 pass
             d['process_request'] = process_request
-        comps.append(type('L%d' % j, (), d)())
-    app = falcon.asgi.App(middleware=comps)
-    inbox = [{'type': 'lifespan.startup'}] + ([{'type': 'lifespan.shutdown'}] if send_shutdown else [])
-    sent = []
-    gone = asyncio.Event()
+        return type('L%d' % j, (), d)()
 
-    async def receive():
-        await asyncio.sleep(0)
-        if inbox:
-            return inbox.pop(0)
-        gone.set()
-        await asyncio.sleep(3600)       # a real server blocks here; the driver cancels the task
-
-    async def send(ev):
-        await asyncio.sleep(0)
-        sent.append(ev)
-
-    async def main():
-        t = asyncio.ensure_future(app({'type': 'lifespan', 'asgi': {'version': '3.0', 'spec_version': '2.0'}}, receive, send))
-        w = asyncio.ensure_future(gone.wait())
-        await asyncio.wait([t, w], return_when=asyncio.FIRST_COMPLETED)
-        exc = None
-        if t.done():
-            exc = t.exception()
+    app = falcon.asgi.App(middleware=[component(s) for s in hs0])
+    out = []
+    for cy in cycles:
+        comps = [component(s) for s in cy['adds']]
+        if comps and add_via_list:
+            app.add_middleware(comps)
         else:
-            t.cancel()
-            try:
-                await t
-            except asyncio.CancelledError:
-                pass
-        w.cancel()
-        return exc
+            for c in comps:
+                app.add_middleware(c)
+        cur['calls'] = calls = []
+        inbox = [{'type': 'lifespan.startup'}] + ([{'type': 'lifespan.shutdown'}] if cy['shutdown'] else [])
+        sent = []
 
-    exc = run_async(main())
-    events = [e.get('type', '?').replace('lifespan.', '') for e in sent]
-    return calls, events, exc
+        async def main():
+            gone = asyncio.Event()
+
+            async def receive():
+                await asyncio.sleep(0)
+                if inbox:
+                    return inbox.pop(0)
+                gone.set()
+                await asyncio.sleep(3600)       # a real server blocks here; the driver cancels the task
+
+            async def send(ev):
+                await asyncio.sleep(0)
+                sent.append(ev)
+
+            t = asyncio.ensure_future(app({'type': 'lifespan', 'asgi': {'version': '3.0', 'spec_version': '2.0'}}, receive, send))
+            w = asyncio.ensure_future(gone.wait())
+            await asyncio.wait([t, w], return_when=asyncio.FIRST_COMPLETED)
+            exc = None
+            if t.done():
+                exc = t.exception()
+            else:
+                t.cancel()
+                try:
+                    await t
+                except asyncio.CancelledError:
+                    pass
+            w.cancel()
+            return exc
+
+        exc = run_async(main())
+        out.append((calls, [e.get('type', '?').replace('lifespan.', '') for e in sent], exc))
+    return out
+
+
+def lifespan_history(b):
+    """TLC lifespan history -> (hs0, cycles, plan, expected per-cycle (calls, events))."""
+    hs = [sorted(s) for s in b['hs']]
+    n0 = len(hs) - len(b['adds'])
+    ncyc = len(b['sd'])
+    cycles, exp = [], []
+    for k in range(1, ncyc + 1):
+        cycles.append({'adds': [sorted(a['shape']) for a in b['adds'] if a['after'] == k - 1], 'shutdown': b['sd'][k - 1]})
+        exp.append(([{'site': c['site'], 'c': c['c'], 'act': c['act']} for c in b['calls'] if c['cyc'] == k],
+                    [e['ev'] for e in b['sent'] if e['cyc'] == k]))
+    return hs[:n0], cycles, [c['act'] for c in b['calls']], exp
 
 
 # ------------------------------------------------------------------------------------------------
@@ -652,16 +749,32 @@ def render_case(accept, xml_on, extra, fields, *, asgi=False, site='responder', 
         box['ex'] = ex
         return ex
 
+    import falcon.media
+
+    def act(resp):
+        if site == 'render':            # the error is raised while the responder's media is serialised
+            resp.content_type = falcon.MEDIA_JSON
+            resp.media = {'m': 1}
+        else:
+            raise mk()
+
+    def dumps(obj):
+        if obj == {'m': 1}:
+            raise mk()
+        return json.dumps(obj, ensure_ascii=False)
+
     if asgi:
         class Res:
             async def on_get(self, req, resp):
-                raise mk()
+                act(resp)
     else:
         class Res:
             def on_get(self, req, resp):
-                raise mk()
+                act(resp)
     app = (falcon.asgi.App if asgi else falcon.App)()
     app.resp_options.xml_error_serialization = xml_on
+    if site == 'render':
+        app.resp_options.media_handlers[falcon.MEDIA_JSON] = falcon.media.JSONHandler(dumps=dumps)
     hs = {}
     for mt in extra:
         hs[mt] = TagHandler(asgi)
@@ -687,32 +800,39 @@ def observable(c):
     return c['site'] != 'notfound' and not (c['site'] == 'handler' and c['c'] <= 3)
 
 
-def expected_from_behaviour(b):
-    """Project a TLC behaviour (spec numbering: every call) onto what an application can see."""
+def expected_request(q):
+    """Project one request of a TLC session (spec numbering: every call) onto what an application can see.
+    Returns (plan, render class or None, expected visible calls, expected response)."""
     obs, n = {}, 0
-    for k, c in enumerate(b['calls'], 1):
+    for k, c in enumerate(q['calls'], 1):
         if observable(c):
             n += 1
             obs[k] = n
         else:
             obs[k] = 0
     calls = []
-    for k, c in enumerate(b['calls'], 1):
+    for k, c in enumerate(q['calls'], 1):
         if obs[k]:
             d = dict(c)
             d['x'] = obs.get(c['x'], 0) if c['site'] == 'handler' else 0
             calls.append(d)
-    body = dict(b['body'])
-    if body['k'] in ('mark', 'err', 'stext', 'hset'):
+    body = dict(q['body'])
+    if body['k'] in ('mark', 'err', 'stext', 'hset', 'hbad'):
         body['id'] = obs.get(body['id'], 0)
-    final = {'escaped': b['escaped'], 'status': b['status'], 'body': body,
-             'hdrs': sorted(set(obs.get(x, 0) for x in b['hdrs']) - {0}), 'vary': b['vary'],
-             'renderfail': b['renderfail'], 'fallback': b['fallback']}
-    plan = [(c['act'], c['cls']) for c in b['calls'] if c['site'] in APP_SITES]
-    render = [c['cls'] for c in b['calls'] if c['site'] == 'render']
+    tok = lambda t: 0 if t == 0 else obs.get(t, 0) if t > 0 else -obs.get(-t, 0)
+    final = {'escaped': q['escaped'], 'status': q['status'], 'body': body,
+             'hdrs': sorted(set(obs.get(x, 0) for x in q['hdrs']) - {0}), 'vary': sorted(set(tok(t) for t in q['vary'])),
+             'renderfail': q['renderfail'], 'fallback': q['fallback']}
+    plan = [(c['act'], c['cls']) for c in q['calls'] if c['site'] in APP_SITES]
+    render = [c['cls'] for c in q['calls'] if c['site'] == 'render']
+    return plan, (render[0] if render else None), calls, final
+
+
+def expected_from_behaviour(b):
+    """TLC session -> (assembly, all custom registrations, [(nregs, plan, render, calls, final) per request])."""
     cfg = {'shape': [sorted(s) for s in b['shape']], 'indep': b['indep'], 'target': b['target'], 'nb': b['nb'],
-           'na': b['na'], 'reg': b['reg'][3:]}
-    return cfg, plan, (render[0] if render else None), calls, final
+           'na': b['na']}
+    return cfg, b['reg'][3:], [(q['nregs'],) + expected_request(q) for q in b['reqs']]
 
 
 def compare(exp_calls, exp_final, got_calls, got):
@@ -759,20 +879,21 @@ def compare(exp_calls, exp_final, got_calls, got):
         out.append(('P4:stale' if got['body']['k'] == 'mark' else 'P4:body', 'body %r, specified %r' % (got['body'], f['body'])))
     elif not rf and f['body']['k'] in ('err', 'stext') and f['body']['id'] and f['body']['id'] not in got['hdrs']:
         out.append(('P4:ownheaders', 'headers of the rendered exception %d missing: %r' % (f['body']['id'], got['hdrs'])))
-    elif not rf and f['body']['k'] in ('err', 'e500') and not got['vary']:
-        out.append(('P4:vary', 'error rendered without Vary: Accept'))
+    elif not set(f['vary']) <= set(got['vary']):
+        out.append(('P4:vary', 'Vary tokens %r lack %r (0: Accept, k: set by call k, -k: carried by the exception of call k)'
+                    % (got['vary'], sorted(set(f['vary']) - set(got['vary'])))))
     else:
         if rf and f['body'] != got['body']:
             out.append(('D:renderfallback', 'body after two failed renderings %r, model %r' % (got['body'], f['body'])))
         if f['hdrs'] != got['hdrs']:
             out.append(('D:headers', 'exception headers %r, model %r' % (got['hdrs'], f['hdrs'])))
         if f['vary'] != got['vary']:
-            out.append(('D:vary', 'vary=%r, model %r' % (got['vary'], f['vary'])))
+            out.append(('D:vary', 'Vary tokens %r, model %r' % (got['vary'], f['vary'])))
     return out
 
 
 ACCEPTS = [None, 'application/json', 'text/xml', 'application/xml;q=0.9, application/json;q=0.5', '*/*',
-           'application/vnd.verif+json']
+           'application/vnd.verif+json', TAG_TYPE, TAG_TYPE + ', application/json;q=0.5']
 
 
 def faithful(rec, res, got):
@@ -841,34 +962,43 @@ def wrong_designs(ctx, env, names):
 
 
 def replay_behaviours(ctx, own, behaviours, both, seen_other, label, rich=False):
+    """Leg A: every TLC session is run on a real application object (registrations and requests in the
+    session's order) and each request is compared with what the specification says."""
     import random
     n = 0
     for b in behaviours:
-        cfg, plan, render, exp_calls, exp_final = expected_from_behaviour(b)
+        cfg, regs, reqs = expected_from_behaviour(b)
         h = int(digest(b), 16)
         for asgi in ((False, True) if both else ((h & 1) == 1,)):
             variant = (h >> 1) % 64
             accept = ACCEPTS[(h >> 7) % len(ACCEPTS)] if rich else None
             xml = bool(accept and accept.split(';')[0].endswith('xml'))
             frng = random.Random(h) if rich else None
-            rec, res, _ = run_request(cfg, plan, asgi=asgi, render_cls=render, variant=variant, accept=accept,
-                                      fields_rng=frng, xml_safe=xml)
-            got = project(res)
-            case = {'leg': 'A', 'iface': 'asgi' if asgi else 'wsgi', 'variant': variant, 'cfg': cfg, 'plan': plan,
-                    'render': render, 'accept': accept, 'fields_seed': h if rich else None, 'spec_calls': exp_calls,
-                    'spec_final': exp_final}
-            if exp_final['renderfail']:
-                ctx.extra['render_failures_replayed'] = ctx.extra.get('render_failures_replayed', 0) + 1
-            if exp_final['fallback']:
-                ctx.extra['render_fallbacks_replayed'] = ctx.extra.get('render_fallbacks_replayed', 0) + 1
-            ctx.case(case, nontrivial=(nontrivial_c03(cfg, exp_calls) if own == 'P3' else nontrivial_c04(b)),
-                     key=digest([cfg, plan, render, asgi]))
-            n += 1
-            if rec.wrong or res.errors:
-                ctx.violation(own + ':protocol', case, 'harness anomaly %r / protocol errors %r' % (rec.wrong, res.errors))
-                continue
-            for clause, what in compare(exp_calls, exp_final, rec.calls, got) + faithful(rec, res, got):
-                report(ctx, own, clause, dict(case, got_calls=rec.calls, got_final=got), what, seen_other)
+            sess = Session(cfg, asgi=asgi, variant=variant)
+            case = {'leg': 'A', 'iface': 'asgi' if asgi else 'wsgi', 'variant': variant, 'cfg': cfg, 'reg': regs,
+                    'accept': accept, 'fields_seed': h if rich else None,
+                    'reqs': [{'nregs': q[0], 'plan': q[1], 'render': q[2]} for q in reqs]}
+            for ri, (nregs, plan, render, exp_calls, exp_final) in enumerate(reqs):
+                sess.add_handlers(regs[sess.nregs:nregs])
+                rec, res = sess.request(plan, render_cls=render, accept=accept, fields_rng=frng, xml_safe=xml)
+                got = project(res)
+                if exp_final['renderfail']:
+                    ctx.extra['render_failures_replayed'] = ctx.extra.get('render_failures_replayed', 0) + 1
+                if exp_final['fallback']:
+                    ctx.extra['render_fallbacks_replayed'] = ctx.extra.get('render_fallbacks_replayed', 0) + 1
+                q = {'reg': regs[:nregs], 'calls': exp_calls}
+                ctx.case(case, nontrivial=(nontrivial_c03(cfg, exp_calls) if own == 'P3' else nontrivial_c04(q) or ri > 0),
+                         key=digest([cfg, regs, [x[:3] for x in reqs[:ri + 1]], asgi]))
+                n += 1
+                full = dict(case, request=ri + 1, spec_calls=exp_calls, spec_final=exp_final, got_calls=rec.calls, got_final=got)
+                if rec.wrong or res.errors:
+                    ctx.violation(own + ':protocol', full, 'harness anomaly %r / protocol errors %r' % (rec.wrong, res.errors))
+                    break
+                diffs = compare(exp_calls, exp_final, rec.calls, got) + faithful(rec, res, got)
+                for clause, what in diffs:
+                    report(ctx, own, clause, full, 'request %d: %s' % (ri + 1, what), seen_other)
+                if any(c.startswith('P') for c, _ in diffs):
+                    break
     ctx.traces_validated += n
     ctx.progress('%s: %d replays' % (label, n))
     return n
@@ -885,36 +1015,54 @@ def nontrivial_c04(b):
     return False
 
 
-def random_trace(rng, *, asgi, ncomp, maxhooks, regs, classes, maxfaults=5, render_p=0.2, rich=False):
+def random_trace(rng, *, asgi, ncomp, maxhooks, regs, classes, maxfaults=5, render_p=0.2, rich=False, nreqs=1):
+    """Leg B: a seeded random session on one real application object.  `regs` is the registration history;
+    with nreqs > 1 it is cut at random points and the later parts are registered between the requests.
+    Returns (trace for PipelineTrace, case, [(rec, res, got) per request])."""
     shapes = [sorted(rng.sample(['req', 'rsrc', 'resp'], rng.randint(1, 3))) for _ in range(ncomp)]
     target = rng.choice(['routed', 'routed', 'sink', 'unrouted'])
     cfg = {'shape': shapes, 'indep': rng.random() < 0.5, 'target': target,
            'nb': rng.randint(0, maxhooks) if target == 'routed' else 0,
-           'na': rng.randint(0, maxhooks) if target == 'routed' else 0, 'reg': regs}
-    p = rng.choice([0.05, 0.15, 0.3, 0.5])
-    left = [rng.randint(1, maxfaults)]
-
-    def lazy(site):
-        if left[0] > 0 and rng.random() < p:
-            left[0] -= 1
-            if site in ('req', 'rsrc') and rng.random() < 0.3:
-                return ('complete', '')
-            return ('raise', rng.choice(classes))
-        return ('ret', '')
-
-    render = rng.choice(classes) if rng.random() < render_p else None
-    bad = rng.choice(classes)
+           'na': rng.randint(0, maxhooks) if target == 'routed' else 0}
     variant = rng.randrange(64)
     accept = rng.choice(ACCEPTS) if rich else None
     xml = bool(accept and accept.split(';')[0].endswith('xml'))
-    rec, res, _ = run_request(cfg, [], asgi=asgi, render_cls=render, lazy=lazy, variant=variant, accept=accept,
-                              fields_rng=rng if rich else None, xml_safe=xml, bad_cls=bad)
-    got = project(res)
-    trace = dict(cfg, ev=rec.calls, final={k: got[k] for k in ('escaped', 'status', 'body', 'hdrs', 'vary')})
-    case = {'leg': 'B', 'iface': 'asgi' if asgi else 'wsgi', 'variant': variant, 'cfg': cfg, 'accept': accept,
-            'plan': [(c['act'], c['cls']) for c in rec.calls if c['site'] in APP_SITES],
-            'render': next((c['cls'] for c in rec.calls if c['site'] == 'render'), None)}
-    return trace, case, rec, res, got
+    cuts = sorted(rng.randint(0, len(regs)) for _ in range(nreqs - 1)) + [len(regs)]
+    if nreqs > 1 and rng.random() < 0.5:
+        cuts[0] = 0                     # the first request often sees only the defaults
+    sess = Session(cfg, asgi=asgi, variant=variant)
+    trace = dict(cfg, reg=regs, reqs=[])
+    case = {'leg': 'B', 'iface': 'asgi' if asgi else 'wsgi', 'variant': variant, 'cfg': cfg, 'reg': regs, 'accept': accept,
+            'fields_seed': None, 'reqs': []}
+    runs = []
+    repeat = None
+    for nregs in cuts:
+        p = rng.choice([0.05, 0.15, 0.3, 0.5])
+        left = [rng.randint(1, maxfaults)]
+
+        def lazy(site):
+            if left[0] > 0 and rng.random() < p:
+                left[0] -= 1
+                if site in ('req', 'rsrc') and rng.random() < 0.3:
+                    return ('complete', '')
+                # later requests often raise what an earlier one raised (handler lookup may remember)
+                return ('raise', repeat if repeat and rng.random() < 0.6 else rng.choice(classes))
+            return ('ret', '')
+
+        render = rng.choice(classes) if rng.random() < render_p else None
+        bad = rng.choice(classes)
+        sess.add_handlers(regs[sess.nregs:nregs])
+        rec, res = sess.request([], render_cls=render, lazy=lazy, accept=accept, fields_rng=rng if rich else None,
+                                xml_safe=xml, bad_cls=bad)
+        got = project(res)
+        raised = [c['cls'] for c in rec.calls if c['act'] == 'raise' and c['site'] != 'handler']
+        repeat = raised[0] if raised else repeat
+        trace['reqs'].append({'nregs': nregs, 'ev': rec.calls,
+                              'final': {k: got[k] for k in ('escaped', 'status', 'body', 'hdrs', 'vary')}})
+        case['reqs'].append({'nregs': nregs, 'plan': [(c['act'], c['cls']) for c in rec.calls if c['site'] in APP_SITES],
+                             'render': next((c['cls'] for c in rec.calls if c['site'] == 'render'), None)})
+        runs.append((rec, res, got))
+    return trace, case, runs
 
 
 C3REGS = [{'cls': 'AppB', 'beh': 'set'}, {'cls': 'AppC', 'beh': 'other'}, {'cls': 'AppD', 'beh': 'http'},
@@ -939,23 +1087,29 @@ def judge_traces(ctx, own, env, items, seen_other):
 
 
 def replay_request(ctx, case):
-    """--replay of one recorded request case: run it again and let PipelineTrace judge it."""
+    """--replay of one recorded session case: run it again and let PipelineTrace judge it."""
     env = write_classes(ctx)
     import random
     frng = random.Random(case['fields_seed']) if case.get('fields_seed') is not None else None
     accept = case.get('accept')
-    rec, res, _ = run_request(case['cfg'], [tuple(p) for p in case['plan']], asgi=case['iface'] == 'asgi',
-                              render_cls=case.get('render'), variant=case.get('variant', 0), accept=accept, fields_rng=frng,
-                              xml_safe=bool(accept and accept.split(';')[0].endswith('xml')))
-    got = project(res)
-    for c in rec.calls:
-        print('  ', c)
-    print('final:', got, 'exc:', res.exc, '\nbody:', res.body)
-    trace = dict(case['cfg'], ev=rec.calls, final={k: got[k] for k in ('escaped', 'status', 'body', 'hdrs', 'vary')})
+    xml = bool(accept and accept.split(';')[0].endswith('xml'))
+    sess = Session(case['cfg'], asgi=case['iface'] == 'asgi', variant=case.get('variant', 0))
+    trace = dict(case['cfg'], reg=case['reg'], reqs=[])
+    for q in case['reqs']:
+        sess.add_handlers(case['reg'][sess.nregs:q['nregs']])
+        rec, res = sess.request([tuple(p) for p in q['plan']], render_cls=q.get('render'), accept=accept, fields_rng=frng,
+                                xml_safe=xml)
+        got = project(res)
+        print('request with %d custom registrations:' % q['nregs'])
+        for c in rec.calls:
+            print('  ', c)
+        print('  final:', got, 'exc:', res.exc, '\n  body:', res.body)
+        trace['reqs'].append({'nregs': q['nregs'], 'ev': rec.calls,
+                              'final': {k: got[k] for k in ('escaped', 'status', 'body', 'hdrs', 'vary')}})
+        for clause, what in faithful(rec, res, got):
+            print(clause, what)
+            ctx.violation(clause, case, what)
     v = ctx.judge('PipelineTrace', [trace], env=env, workers=1)[0]
-    print('verdict:', v)
-    for clause, what in faithful(rec, res, got):
-        print(clause, what)
-        ctx.violation(clause, case, what)
+    print('verdict (request*1000 + event):', v)
     if v != 'ok' and not v.startswith('D:'):
         ctx.violation(v.split('@')[0], case, 'trace rejected at %s' % v)
